@@ -669,6 +669,8 @@ class Circuit(Function):
                         )
                         for operand in new_operands:
                             self._add_user(operand, this_label)
+                        if cur_gate.gate_type != gate.INPUT:
+                            gates_for_block.add(this_label)
 
         self.set_outputs(
             [output for output in self._outputs if output not in this_connectors]
